@@ -4,9 +4,10 @@ import itertools
 from lib import pipeline
 
 LEVEL = "proof"
-MODEL_FILES = ["Model/IsoM.v"]
+MODEL_FILES = ["Model/IsoM.v", "Model/Vf2M.v"]
 THEOREMS = []
-STREAMS = [("C13", 3000, 120000)]
+EXTRA_PROPS = ["C13b"]
+STREAMS = [("C13", 2000, 80000), ("C13v", 2000, 80000)]
 SHARD = 3000
 RELEASE_TOO = True
 RULE = ("pairs of simple graphs with 0..6 nodes (40% with self-loops), directed and undirected, four densities, node and edge weights "
@@ -18,7 +19,7 @@ RULE = ("pairs of simple graphs with 0..6 nodes (40% with self-loops), directed 
         "or 4'; the iterator is drained and its mappings are compared as a sorted list with multiplicities; debug and release. "
         "distinct = sha1 of the case; non-trivial = both graphs have at least 3 nodes and the first has an edge")
 ASSUMPTIONS = [
-    "the Coq reference is the definition, not a mirror of VF2: the correspondence run compares the crate's answers with it on every generated pair",
+    "stream C13 compares the crate with the definition (Model/IsoM.v); stream C13v compares it, yield order included, with the mirror of the VF2 state machine (Model/Vf2M.v), which is proved equivalent to the definition",
     "graphs are simple (at most one edge per ordered pair, per unordered pair when undirected); petgraph documents VF2 for non-multigraphs only",
 ]
 SCOPE = "see Props/C13.v"
